@@ -366,4 +366,14 @@ func ardop.(*TNC).set(tnc, cmd, param) (err)
   at send#1 requires at-most-three-transmissions: sent < 3
   loop 0 invariant transmissions: 1 <= sent && sent <= 3 && gCmdLine == line
 
+
+# the connect command goes to the control port once; success only after the TNC reported
+# CONNECTED (the link is then marked connected), a FAULT report is an error, a closed TNC too
+func ardop.(*TNC).arqCall(tnc, targetcall, repeat) (err)
+  props C14
+  nosafety
+  at send requires connect-command-to-the-control-port: $0 == tnc.out
+  at return requires success-only-after-connected: $r0 == nil ==> tnc.connected
+  at store#3 requires marked-connected-only-on-a-connected-report: msg.cmd == cmdConnected
+
 @*/
